@@ -1,16 +1,19 @@
 #!/usr/bin/env python3
 """Apply a seeded change to /repo, run checks against it, undo it.
    seedcheck.py <patch.diff> [ID ...]      (default: all registered checks)
-Prints one line per check: CAUGHT / missed / error."""
+Prints one line per check: CAUGHT / missed / error.
+With VERIF_SEED_REPO=<scratch worktree of /repo at the same commit> the change is applied there and the
+checks are pointed at it (VERIF_REPO), so that a thorough run in flight keeps building from a clean /repo."""
 import json, os, subprocess, sys, time
 ROOT = os.path.dirname(os.path.abspath(__file__))
+REPO = os.environ.get("VERIF_SEED_REPO", "/repo")
 patch = os.path.abspath(sys.argv[1])
 ids = sys.argv[2:] or [c["property_id"] for c in json.load(open(os.path.join(ROOT, "MANIFEST.json")))["checks"]]
-st = subprocess.run(["git", "-C", "/repo", "status", "--porcelain", "--untracked-files=no"], stdout=subprocess.PIPE, text=True).stdout.strip()
+st = subprocess.run(["git", "-C", REPO, "status", "--porcelain", "--untracked-files=no"], stdout=subprocess.PIPE, text=True).stdout.strip()
 if st:
-    print("refusing: /repo has local modifications:\n" + st)
+    print("refusing: " + REPO + " has local modifications:\n" + st)
     sys.exit(2)
-r = subprocess.run(["git", "-C", "/repo", "apply", patch])
+r = subprocess.run(["git", "-C", REPO, "apply", patch])
 if r.returncode != 0:
     print("patch does not apply")
     sys.exit(2)
@@ -20,6 +23,7 @@ try:
         t0 = time.time()
         env = dict(os.environ)
         env["VERIF_KEEP_EVIDENCE"] = "1"
+        env["VERIF_REPO"] = REPO
         p = subprocess.run([sys.executable, os.path.join(ROOT, "check.py"), "run", i, "--tier", "quick", "--no-evidence"], stdout=subprocess.PIPE, stderr=subprocess.STDOUT, text=True, cwd=ROOT, env=env)
         lines = [l for l in p.stdout.splitlines() if l.startswith("VIOLATION") or l.startswith("HARNESS-ERROR")]
         gen = [l for l in lines if l.startswith("VIOLATION") and "witness" not in l]
@@ -28,5 +32,5 @@ try:
         res[i] = verdict
         print("%-4s %-7s %5.0fs  generated=%d witness=%d  %s" % (i, verdict, time.time() - t0, len(gen), len(wit), ((gen or lines)[0][:120] if lines else "")), flush=True)
 finally:
-    subprocess.run(["git", "-C", "/repo", "checkout", "--", "."])
+    subprocess.run(["git", "-C", REPO, "checkout", "--", "."])
 print(json.dumps(res))
